@@ -192,56 +192,71 @@ theorem tickPre_timers (cfg : Cfg) (s : State) (t : TickIn) (h : ∀ it ∈ t.it
 
 /-! ## Command phase and write phase: clocks are only ever reset, never advanced -/
 
+/-- the scope timers and the scope stack are as they were right after the clock update, or were cleared by a run
+    start (`Cfg.scopeReset`) -/
+def ScopeKept (u a : A) : Prop :=
+  (a.core.scopeT = u.core.scopeT ∧ a.core.scopeS = u.core.scopeS) ∨ (a.core.scopeT = [] ∧ a.core.scopeS = [])
+
+theorem ScopeKept.of_eq {u a a' : A} (h : ScopeKept u a) (hT : a'.core.scopeT = a.core.scopeT)
+    (hS : a'.core.scopeS = a.core.scopeS) : ScopeKept u a' := by
+  unfold ScopeKept; rw [hT, hS]; exact h
+
 /-- relation between the state `u` right after the clock update and a later state of the same tick -/
 structure Post (u a : A) : Prop where
   pt : a.core.pt = u.core.pt ∨ a.core.pt = 0
   rt : a.core.rt = u.core.rt ∨ a.core.rt = 0
   blocks : a.core.blocks = u.core.blocks ∨ a.core.blocks = []
-  scopeT : a.core.scopeT = u.core.scopeT
-  scopeS : a.core.scopeS = u.core.scopeS
+  scope : ScopeKept u a
 
 theorem post_step (cfg : Cfg) (pm : Perm) (hk : pm.clk = false) (hv : pm.ev = false) (u a : A) (act : Act)
     (h : Post u a) (hen : act.enabled cfg pm a) : Post u (act.apply cfg a) := by
-  obtain ⟨h1, h2, h3, h4, h5⟩ := h
+  obtain ⟨h1, h2, h3, h4⟩ := h
   cases act
-  case startRun => exact ⟨Or.inr rfl, Or.inr rfl, Or.inr rfl, h4, h5⟩
+  case startRun =>
+    refine ⟨Or.inr rfl, Or.inr rfl, Or.inr rfl, ?_⟩
+    by_cases hs : cfg.scopeReset = true
+    · exact Or.inr ⟨by simp [Act.apply, Core.startRun, hs], by simp [Act.apply, Core.startRun, hs]⟩
+    · exact h4.of_eq (by simp [Act.apply, Core.startRun, hs]) (by simp [Act.apply, Core.startRun, hs])
   case restartFinish =>
-    refine ⟨?_, ?_, Or.inr rfl, h4, h5⟩ <;> simp only [Act.apply, Core.restartFinish] <;> split <;> simp_all
+    refine ⟨?_, ?_, Or.inr rfl, ?_⟩
+    · simp only [Act.apply, Core.restartFinish]; split <;> simp_all
+    · simp only [Act.apply, Core.restartFinish]; split <;> simp_all
+    · by_cases hs : cfg.scopeReset = true
+      · exact Or.inr ⟨by simp [Act.apply, Core.restartFinish, hs], by simp [Act.apply, Core.restartFinish, hs]⟩
+      · exact h4.of_eq (by simp [Act.apply, Core.restartFinish, hs]) (by simp [Act.apply, Core.restartFinish, hs])
   case stopFinish =>
-    refine ⟨?_, ?_, ?_, ?_, ?_⟩ <;> simp only [Act.apply, Core.stopFinish, Core.writeImage] <;> split <;> assumption
+    refine ⟨?_, ?_, ?_, h4.of_eq ?_ ?_⟩ <;> simp only [Act.apply, Core.stopFinish, Core.writeImage] <;> split <;>
+      first | assumption | rfl
   case stopFinishC fx d =>
-    refine ⟨?_, ?_, ?_, ?_, ?_⟩ <;> simp only [Act.apply, Core.stopFinish, Core.writeImage] <;> split <;>
-      simpa using by assumption
+    refine ⟨?_, ?_, ?_, h4.of_eq ?_ ?_⟩ <;> simp only [Act.apply, Core.stopFinish, Core.writeImage] <;> split <;>
+      first | (simpa using by assumption) | simp
   case restartMidC fx =>
-    refine ⟨?_, ?_, ?_, ?_, ?_⟩ <;> simp only [Act.apply, Core.restartMid] <;> simpa using by assumption
+    refine ⟨?_, ?_, ?_, h4.of_eq ?_ ?_⟩ <;> simp only [Act.apply, Core.restartMid] <;>
+      first | (simpa using by assumption) | simp
   case write =>
-    refine ⟨?_, ?_, ?_, ?_, ?_⟩ <;> simp only [Act.apply, Core.writeImage] <;> split <;> assumption
+    refine ⟨?_, ?_, ?_, h4.of_eq ?_ ?_⟩ <;> simp only [Act.apply, Core.writeImage] <;> split <;>
+      first | assumption | rfl
   case ev e => simp [Act.enabled, hv] at hen
   case clock inc => simp [Act.enabled, hk] at hen
   case error =>
     have f := setError_frame cfg a.core
     exact ⟨by simp only [Act.apply]; rw [f.1]; exact h1, by simp only [Act.apply]; rw [f.2.1]; exact h2,
       by simp only [Act.apply]; rw [f.2.2.2.2.2.2.1]; exact h3,
-      by simp only [Act.apply]; rw [f.2.2.2.2.2.2.2.1]; exact h4,
-      by simp only [Act.apply]; rw [f.2.2.2.2.2.2.2.2]; exact h5⟩
+      h4.of_eq f.2.2.2.2.2.2.2.1 f.2.2.2.2.2.2.2.2⟩
   case pause =>
     have f := pause_frame cfg a.core
     exact ⟨by simp only [Act.apply]; rw [f.1]; exact h1, by simp only [Act.apply]; rw [f.2.1]; exact h2,
-      by simp only [Act.apply]; rw [f.2.2.2.2.1]; exact h3,
-      by simp only [Act.apply]; rw [f.2.2.2.2.2.1]; exact h4,
-      by simp only [Act.apply]; rw [f.2.2.2.2.2.2]; exact h5⟩
+      by simp only [Act.apply]; rw [f.2.2.2.2.1]; exact h3, h4.of_eq f.2.2.2.2.2.1 f.2.2.2.2.2.2⟩
   case userReq i =>
     have f := userRequest_frame i a.core
     exact ⟨by simp only [Act.apply]; rw [f.1]; exact h1, by simp only [Act.apply]; rw [f.2.1]; exact h2,
-      by simp only [Act.apply]; rw [f.2.2.2.2.1]; exact h3,
-      by simp only [Act.apply]; rw [f.2.2.2.2.2.1]; exact h4,
-      by simp only [Act.apply]; rw [f.2.2.2.2.2.2]; exact h5⟩
-  all_goals exact ⟨h1, h2, h3, h4, h5⟩
+      by simp only [Act.apply]; rw [f.2.2.2.2.1]; exact h3, h4.of_eq f.2.2.2.2.2.1 f.2.2.2.2.2.2⟩
+  all_goals exact ⟨h1, h2, h3, h4.of_eq rfl rfl⟩
 
 theorem post_of_tick (cfg : Cfg) (s : State) (t : TickIn) :
     Post (abs (tickClock cfg t.inc (tickPre cfg s t))) (abs (tick cfg s t)) :=
   (tickPost_ref (cfg := cfg) (pm := ⟨true, false, false⟩) _ (Or.inl rfl)).inv
-    (fun a act => post_step cfg _ rfl rfl _ a act) ⟨Or.inl rfl, Or.inl rfl, Or.inl rfl, rfl, rfl⟩
+    (fun a act => post_step cfg _ rfl rfl _ a act) ⟨Or.inl rfl, Or.inl rfl, Or.inl rfl, Or.inl ⟨rfl, rfl⟩⟩
 
 /-! ## Process Time, Run Time -/
 
@@ -357,19 +372,22 @@ theorem block_time_only_while_running (cfg : Cfg) (hc : cfg.clocks = true) (s : 
       · exact absurd (by simpa using hobs) hne
   · exact absurd (by simp [Core.blockObs, h]) hnz
 
-/-- **Scope Time advances only while Running** (same reading as for Block Time; the scope timers are never
-    cleared by the command phase, so any change is the clock advance). -/
+/-- **Scope Time advances only while Running** (same reading as for Block Time: a change to 0 — the scopes are
+    cleared when a run starts, `Cfg.scopeReset` — is not an advance; otherwise the command phase never touches
+    the scope timers, so any change is the clock advance). -/
 theorem scope_time_only_while_running (cfg : Cfg) (hc : cfg.clocks = true) (s : State) (t : TickIn)
     (hev : ∀ it ∈ t.items, noEv it = true)
-    (hne : (tick cfg s t).core.scopeObs ≠ s.core.scopeObs) :
+    (hne : (tick cfg s t).core.scopeObs ≠ s.core.scopeObs) (hnz : (tick cfg s t).core.scopeObs ≠ 0) :
     s.core.sys = .running ∧ (tickPre cfg s t).core.sys = .running ∧ s.core.started = true ∧
       (tick cfg s t).core.scopeObs = s.core.scopeObs + t.inc := by
   have hk := tickPre_keeps cfg s t
   have ht := tickPre_timers cfg s t hev
   simp only [] at hk ht
-  have hpT := (post_of_tick cfg s t).scopeT
-  have hpS := (post_of_tick cfg s t).scopeS
-  simp only [abs_core, tickClock, (clock_timers cfg hc _ _).2.1, (clock_timers cfg hc _ _).2.2] at hpT hpS
+  have hp := (post_of_tick cfg s t).scope
+  simp only [ScopeKept, abs_core, tickClock, (clock_timers cfg hc _ _).2.1, (clock_timers cfg hc _ _).2.2] at hp
+  have hcl : (tick cfg s t).core.scopeS = [] → False := fun hS => hnz (by simp [Core.scopeObs, hS])
+  rcases hp with ⟨hpT, hpS⟩ | ⟨_, hpS⟩
+  case inr => exact absurd hpS hcl
   have hobs : (tick cfg s t).core.scopeObs = s.core.scopeObs ∨
       (tick cfg s t).core.scopeObs = s.core.scopeObs + advance (tickPre cfg s t).core t.inc := by
     unfold Core.scopeObs
@@ -447,6 +465,71 @@ theorem zero_at_run_start (cfg : Cfg) (hc : cfg.clocks = true) (s : State) (op :
     · exact absurd h hne
     · exact absurd h hsome
     · exact h
+  | user c =>
+    exfalso; apply hne
+    by_cases hv : s.core.valid c = true <;> simp [step, hv, enqueue]
+  | userUnknown => exact absurd rfl hne
+  | userBlank => exact absurd rfl hne
+  | setOut i v => exact absurd rfl hne
+  | errApi => exact absurd (setError_frame cfg s.core).2.2.1 hne
+
+/-- relative to the run id `r0` at the clock update: the run id is still `r0`, or cleared, or a run has started
+    since — and then no block and no scope is open -/
+def ZeroRelS (r0 : Option Nat) (a : A) : Prop :=
+  a.core.runId = r0 ∨ a.core.runId = none ∨ (a.core.blocks = [] ∧ a.core.scopeT = [] ∧ a.core.scopeS = [])
+
+theorem zeroRelS_step (cfg : Cfg) (hs : cfg.scopeReset = true) (pm : Perm) (hk : pm.clk = false)
+    (hv : pm.ev = false) (r0 : Option Nat) (a : A) (act : Act) (h : ZeroRelS r0 a)
+    (hen : act.enabled cfg pm a) : ZeroRelS r0 (act.apply cfg a) := by
+  cases act
+  case startRun => exact Or.inr (Or.inr (by simp [Act.apply, Core.startRun, hs]))
+  case restartFinish => exact Or.inr (Or.inr (by simp [Act.apply, Core.restartFinish, hs]))
+  case stopFinish =>
+    refine Or.inr (Or.inl ?_)
+    simp only [Act.apply, Core.stopFinish, Core.writeImage]; split <;> rfl
+  case restartMid => exact Or.inr (Or.inl rfl)
+  case stopFinishC fx d =>
+    refine Or.inr (Or.inl ?_)
+    simp only [Act.apply, Core.stopFinish, Core.writeImage]; split <;> rfl
+  case restartMidC fx => exact Or.inr (Or.inl rfl)
+  case write => simp only [ZeroRelS, Act.apply, Core.writeImage] at h ⊢; split <;> exact h
+  case ev e => simp [Act.enabled, hv] at hen
+  case clock inc => simp [Act.enabled, hk] at hen
+  case error =>
+    have f := setError_frame cfg a.core
+    simp only [ZeroRelS, Act.apply] at h ⊢
+    rw [f.2.2.1, f.2.2.2.2.2.2.1, f.2.2.2.2.2.2.2.1, f.2.2.2.2.2.2.2.2]; exact h
+  case pause =>
+    have f := pause_frame cfg a.core
+    simp only [ZeroRelS, Act.apply] at h ⊢
+    rw [f.2.2.1, f.2.2.2.2.1, f.2.2.2.2.2.1, f.2.2.2.2.2.2]; exact h
+  case userReq i =>
+    have f := userRequest_frame i a.core
+    simp only [ZeroRelS, Act.apply] at h ⊢
+    rw [f.2.2.1, f.2.2.2.2.1, f.2.2.2.2.2.1, f.2.2.2.2.2.2]; exact h
+  all_goals exact h
+
+/-- **Block Time and Scope Time are zero when a run starts** (with /repo 29706dcf, `Cfg.scopeReset`; Block Time
+    also without it): whenever an operation leaves the engine with a run id that differs from the one before
+    it, no block and no scope of the earlier run is open any more, so both tags read 0. (A lemma beyond the
+    property text, which demands zero at run start for Process Time and Run Time only.) -/
+theorem block_scope_zero_at_run_start (cfg : Cfg) (hs : cfg.scopeReset = true) (s : State) (op : Op)
+    (hne : (step cfg s op).1.core.runId ≠ s.core.runId) (hsome : (step cfg s op).1.core.runId ≠ none) :
+    (step cfg s op).1.core.blockObs = 0 ∧ (step cfg s op).1.core.scopeObs = 0 := by
+  cases op with
+  | tick t =>
+    have hk := tickPre_keeps cfg s t
+    simp only [] at hk
+    have h0 : ZeroRelS s.core.runId (abs (tickClock cfg t.inc (tickPre cfg s t))) := by
+      left; simp only [abs_core, tickClock, (clock_other cfg _ _).1]; exact hk.2.2.1
+    have h1 := (tickPost_ref (cfg := cfg) (pm := ⟨true, false, false⟩) _ (Or.inl rfl)).inv
+      (fun a act => zeroRelS_step cfg hs _ rfl rfl _ a act) h0
+    rcases h1 with h | h | h
+    · exact absurd h hne
+    · exact absurd h hsome
+    · have hb : (tick cfg s t).core.blocks = [] := h.1
+      have hS : (tick cfg s t).core.scopeS = [] := h.2.2
+      exact ⟨by simp [step, Core.blockObs, hb], by simp [step, Core.scopeObs, hS]⟩
   | user c =>
     exfalso; apply hne
     by_cases hv : s.core.valid c = true <;> simp [step, hv, enqueue]
